@@ -14,6 +14,10 @@ import XotModel.Lemmas.Output
 import XotModel.Lemmas.Pretty
 import XotModel.Lemmas.PrettyWhere
 import XotModel.Lemmas.Doctype
+import XotModel.Lemmas.PrettyBetween
+import XotModel.Lemmas.Prolog
+import XotModel.Lemmas.XmlDeclRest
+import XotModel.Lemmas.CdataToken
 
 namespace XotModel.Props
 open XotModel XotModel.Gen
@@ -343,5 +347,215 @@ example :
     = some [([0], 0, false), ([0], 0, true), ([0, 0], 1, false), ([0, 0], 0, false),
             ([0, 0, 0], 0, false), ([0, 0, 1], 0, false), ([0, 0, 1], 0, false), ([0, 0, 1], 0, false),
             ([0, 0], 0, true), ([0], 0, true)] := by decide
+
+/-! ### Whitespace lands only between markup tokens (never inside a tag, never next to text) -/
+
+/-- Per token, every tree: indentation is written only in front of a token that opens markup
+    (`<name`, end tag, comment, PI) and a newline only behind one that closes markup (`>` / `/>`,
+    end tag, comment, PI).  In particular a text / CDATA token has indentation 0 and no newline,
+    and so have the attribute and `xmlns` tokens inside a start tag. -/
+theorem C14_pretty_token_kinds (esc : Escapers) (env : Env) (pr : TokenParams) (sup : List Nat)
+    (t : Tree) (start : Path) (ks : List (Path × Output × PrettyOutputToken))
+    (h : prettyTokensWith esc env pr sup t start = .ok ks)
+    (k : Path × Output × PrettyOutputToken) (hk : k ∈ ks) :
+    (k.2.2.indentation > 0 → k.2.1.opensMarkup = true) ∧
+    (k.2.2.newline = true → k.2.1.closesMarkup = true) :=
+  pretty_token_kinds sup t esc env pr start ks h k hk
+
+theorem C14_pretty_text_token (esc : Escapers) (env : Env) (pr : TokenParams) (sup : List Nat)
+    (t : Tree) (start : Path) (ks : List (Path × Output × PrettyOutputToken))
+    (h : prettyTokensWith esc env pr sup t start = .ok ks)
+    (p : Path) (c : Str) (tok : PrettyOutputToken) (hk : (p, Output.text c, tok) ∈ ks) :
+    tok.indentation = 0 ∧ tok.newline = false := by
+  obtain ⟨h1, h2⟩ := pretty_token_kinds sup t esc env pr start ks h _ hk
+  constructor
+  · cases hi : tok.indentation with
+    | zero => rfl
+    | succ m => exact absurd (h1 (by simp [hi])) (by simp [Output.opensMarkup])
+  · cases hn : tok.newline with
+    | false => rfl
+    | true => exact absurd (h2 hn) (by simp [Output.closesMarkup])
+
+/-- Between tokens, on the trees the indentation clause ranges over (`TextOk`: well-formed
+    documents and element-rooted subtrees — leaf kinds are leaves, no text directly under a
+    document node): if the pretty writer puts whitespace between two consecutive tokens `k1 k2`
+    (a newline behind `k1` or indentation in front of `k2`) then `k1` closes markup and its text
+    ends with `>`, `k2` opens markup and its text begins with `<` (the empty end-tag token of an
+    element written `<e/>` is the only markup token without characters), and the stack between
+    them — the entries of the open elements the whitespace lands in — is neither mixed /
+    suppressed nor in `xml:space="preserve"` scope.  So a parser reads every inserted run as (part
+    of) a whitespace-only text node between two pieces of markup, or outside the root. -/
+theorem C14_pretty_only_whitespace (esc : Escapers) (env : Env) (pr : TokenParams) (sup : List Nat)
+    (t : Tree) (start : Path) (n : Tree) (inScope : List (Nat × Nat)) (hat : t.at? start = some n)
+    (hs : namespacesInScope t start = some inScope) (hok : TextOk n)
+    (ks pre post : List (Path × Output × PrettyOutputToken)) (k1 k2 : Path × Output × PrettyOutputToken)
+    (h : prettyTokensWith esc env pr sup t start = .ok ks) (hks : ks = pre ++ k1 :: k2 :: post)
+    (hw : k1.2.2.newline = true ∨ k2.2.2.indentation > 0) :
+    (k1.2.1.closesMarkup = true ∧
+      (k1.2.2.text.getLast? = some '>' ∨ ((∃ name, k1.2.1 = .endTag name) ∧ k1.2.2.text = []))) ∧
+    (k2.2.1.opensMarkup = true ∧ k2.2.2.space = false ∧
+      (k2.2.2.text.head? = some '<' ∨ ((∃ name, k2.2.1 = .endTag name) ∧ k2.2.2.text = []))) ∧
+    ∃ rel, k2.1 = start ++ rel ∧
+      PStack.inMixed (pentriesFor sup k2.2.1 n rel) = false ∧
+      PStack.inSpacePreserve (pentriesFor sup k2.2.1 n rel) = false := by
+  obtain ⟨c1, c2, hrel⟩ := pretty_between sup t esc env pr start n inScope hat hs hok ks pre post k1 k2 h hks hw
+  have s1 := (pretty_token_shape sup t esc env pr start ks h k1 (by simp [hks])).2 c1
+  have s2 := (pretty_token_shape sup t esc env pr start ks h k2 (by simp [hks])).1 c2
+  exact ⟨⟨c1, s1⟩, ⟨c2, s2.1, s2.2⟩, hrel⟩
+
+/-- Nothing is written in front of the first token. -/
+theorem C14_pretty_first_token (esc : Escapers) (env : Env) (pr : TokenParams) (sup : List Nat)
+    (t : Tree) (start : Path) (k : Path × Output × PrettyOutputToken)
+    (ks : List (Path × Output × PrettyOutputToken))
+    (h : prettyTokensWith esc env pr sup t start = .ok (k :: ks)) : k.2.2.indentation = 0 :=
+  pretty_first_token sup t esc env pr start k ks h
+
+/-- Non-vacuity of `C14_pretty_only_whitespace`: `<d><a/><!--c--></d>` (d=5, a=2) satisfies
+    `TextOk` and its tokens `<d` `>`⏎ ␣␣`<a` `/>` ``⏎ ␣␣`<!--c-->`⏎ `</d>`⏎ receive whitespace (the empty
+    environment spells every name as the empty string). -/
+example : TextOk (.node .document [.node (.element 5) [.node (.element 2) [], .node (.comment ['c']) []]]) := by
+  simp [TextOk, Tree.Forall, Tree.Forall.forallList, TextOkAt, Value.isLeafKind, Value.isText, Tree.value]
+
+example :
+    (prettyTokens {} {} []
+      (.node .document [.node (.element 5) [.node (.element 2) [], .node (.comment ['c']) []]]) []
+      ).okValue?.map (fun l => l.map (fun k => (k.2.2.indentation, String.ofList k.2.2.text, k.2.2.newline)))
+    = some [(0, "<", false), (0, ">", true), (1, "<", false), (0, "/>", false), (0, "", true),
+            (1, "<!--c-->", true), (0, "</>", true)] := by decide
+
+/-- Why `TextOk` excludes text directly under a document node (a fragment; outside the
+    indentation clause of the property): `Pretty` keeps no stack entry for the document node, so in
+    the fragment `<a/>x` the newline behind `<a/>` lands in front of the text token. -/
+theorem C14_pretty_fragment_text_gets_newline :
+    (prettyTokens {} {} [] (.node .document [.node (.element 2) [], .node (.text ['x']) []]) []
+      ).okValue?.map (fun l => l.map (fun k => (k.2.2.indentation, String.ofList k.2.2.text, k.2.2.newline)))
+    = some [(0, "<", false), (0, "/>", false), (0, "", true), (0, "x", false)] := by decide
+
+/-! ### The prolog: declaration and doctype (`Declaration::serialize`, `DocType::serialize`) -/
+
+/-- (a) Shape: the declaration is `<?xml version="1.0"[ encoding="E"][ standalone="yes|no"]?>` + LF,
+    the doctype `<!DOCTYPE name PUBLIC "P" "S">` / `<!DOCTYPE name SYSTEM "S">` + LF, the parameter
+    strings copied literally. -/
+theorem C14_decl_shape (d : Declaration) (dt : DocType) (name : Str) :
+    d.bytes =
+      ['<','?','x','m','l',' ','v','e','r','s','i','o','n','=','"','1','.','0','"']
+      ++ (match d.encoding with
+          | some e => [' ','e','n','c','o','d','i','n','g','=','"'] ++ e ++ ['"']
+          | none => [])
+      ++ (match d.standalone with
+          | some true => [' ','s','t','a','n','d','a','l','o','n','e','=','"','y','e','s','"']
+          | some false => [' ','s','t','a','n','d','a','l','o','n','e','=','"','n','o','"']
+          | none => [])
+      ++ ['?','>','\n'] ∧
+    dt.bytes name =
+      ['<','!','D','O','C','T','Y','P','E',' '] ++ name
+      ++ (match dt with
+          | .pub p s => [' ','P','U','B','L','I','C',' ','"'] ++ p ++ ['"',' ','"'] ++ s ++ ['"']
+          | .sys s => [' ','S','Y','S','T','E','M',' ','"'] ++ s ++ ['"'])
+      ++ ['>','\n'] :=
+  ⟨Prolog.declaration_bytes d, Prolog.doctype_bytes dt name⟩
+
+/-- (c) The prolog never changes the content: a successful `serialize_xml_string` is the
+    declaration bytes, the doctype bytes (for the name `doctypeName` computes) and then exactly
+    the output of the same call without declaration and doctype — and conversely. -/
+theorem C14_decl_rest (esc : Escapers) (env : Env) (p : XmlParams) (t : Tree) (start : Path) :
+    (∀ s, serializeXmlStringWith esc env p t start = .ok s →
+      ∃ dt body, DoctypeWritten env p t start dt ∧
+        serializeXmlStringWith esc env p.body t start = .ok body ∧ s = p.declBytes ++ dt ++ body) ∧
+    (∀ dt body, DoctypeWritten env p t start dt →
+      serializeXmlStringWith esc env p.body t start = .ok body →
+      serializeXmlStringWith esc env p t start = .ok (p.declBytes ++ dt ++ body)) :=
+  ⟨fun s h => xmlString_split esc env p t start s h,
+   fun dt body h1 h2 => xmlString_join esc env p t start dt body h1 h2⟩
+
+/-- (b) Well-formedness of the prolog against the XML 1.0 grammar (`Prolog.xmlDecl`: productions
+    23–26, 32, 80, 81; `Prolog.doctypeDecl`: 28, 75, 11–13, 5).  Caller's side: the encoding is an
+    `EncName`, the public identifier consists of `PubidChar`s, the system identifier has no `"`;
+    and the root element's written name is an XML `Name`.  Then the output starts with an `XMLDecl`
+    (when requested) followed by a `doctypedecl` (when requested), each read exactly up to the
+    line break the writer appends, and what follows is the output without prolog. -/
+theorem C14_decl (esc : Escapers) (env : Env) (p : XmlParams) (t : Tree) (start : Path) (s : Str)
+    (h : serializeXmlStringWith esc env p t start = .ok s)
+    (henc : ∀ d e, p.declaration = some d → d.encoding = some e → Prolog.isEncName e = true)
+    (hids : ∀ d, p.doctype = some d → Prolog.idsOk d = true)
+    (hname : ∀ name, doctypeName env t start = .ok name → Prolog.isXmlName name = true) :
+    ∃ dt body, serializeXmlStringWith esc env p.body t start = .ok body ∧
+      s = p.declBytes ++ dt ++ body ∧
+      (∀ d, p.declaration = some d → Prolog.xmlDecl s = some ('\n' :: (dt ++ body))) ∧
+      (p.declaration = none → p.declBytes = []) ∧
+      (∀ d, p.doctype = some d → Prolog.doctypeDecl (dt ++ body) = some ('\n' :: body)) ∧
+      (p.doctype = none → dt = []) := by
+  obtain ⟨dt, body, hdt, hb, hs⟩ := xmlString_split esc env p t start s h
+  refine ⟨dt, body, hb, hs, ?_, ?_, ?_, ?_⟩
+  · intro d hd
+    rw [hs, List.append_assoc]
+    simp only [XmlParams.declBytes, hd]
+    exact Prolog.xmlDecl_written d _ (fun e he => henc d e hd he)
+  · intro hd; simp [XmlParams.declBytes, hd]
+  · intro d hd
+    simp only [DoctypeWritten, hd] at hdt
+    obtain ⟨name, hn, rfl⟩ := hdt
+    exact Prolog.doctypeDecl_written d name body (hname name hn) (hids d hd)
+  · intro hd; simpa [DoctypeWritten, hd] using hdt
+
+/-- The hypotheses of `C14_decl` are necessary, by closed witnesses: the strings are copied
+    literally, so an encoding or identifier containing `"` ends its literal early, and a quote-free
+    encoding that is no `EncName` (`é`, the empty string, `a b`) or a public identifier with a
+    non-`PubidChar` (`<`) is no `XMLDecl` / `doctypedecl` either. -/
+theorem C14_decl_necessary :
+    (⟨some ['x','"','y'], none⟩ : Declaration).bytes =
+      ['<','?','x','m','l',' ','v','e','r','s','i','o','n','=','"','1','.','0','"',
+       ' ','e','n','c','o','d','i','n','g','=','"','x','"','y','"','?','>','\n'] ∧
+    Prolog.xmlDecl ((⟨some ['x','"','y'], none⟩ : Declaration).bytes) = none ∧
+    Prolog.xmlDecl ((⟨some ['é'], none⟩ : Declaration).bytes) = none ∧
+    Prolog.xmlDecl ((⟨some [], none⟩ : Declaration).bytes) = none ∧
+    Prolog.xmlDecl ((⟨some ['a',' ','b'], some true⟩ : Declaration).bytes) = none ∧
+    Prolog.doctypeDecl ((DocType.sys ['x','"','y']).bytes ['a']) = none ∧
+    Prolog.doctypeDecl ((DocType.pub ['p','"','q'] ['d']).bytes ['a']) = none ∧
+    Prolog.doctypeDecl ((DocType.pub ['p','<','q'] ['d']).bytes ['a']) = none :=
+  ⟨Prolog.xmlDecl_quote_witness.1, Prolog.xmlDecl_quote_witness.2, Prolog.xmlDecl_encname_witness.1,
+   Prolog.xmlDecl_encname_witness.2.1, Prolog.xmlDecl_encname_witness.2.2,
+   Prolog.doctypeDecl_quote_witness.1, Prolog.doctypeDecl_quote_witness.2.1,
+   Prolog.doctypeDecl_quote_witness.2.2⟩
+
+/-- Non-vacuity of `C14_decl`: `<?xml version="1.0" encoding="UTF-8" standalone="no"?>` and
+    a doctype `a:b` with a W3C-style public identifier and the system identifier `a>b<c.dtd` are accepted. -/
+example : Prolog.xmlDecl ((⟨some ['U','T','F','-','8'], some false⟩ : Declaration).bytes ++ ['<','a','/','>'])
+    = some ['\n','<','a','/','>'] := by decide
+example : Prolog.isEncName ['U','T','F','-','8'] = true ∧
+    Prolog.idsOk (.pub ['-','/','/','W','3','C','/','/','D','T','D',' ','X',' ','1','.','0','/','/','E','N']
+      ['a','>','b','<','c','.','d','t','d']) = true ∧ Prolog.isXmlName ['a',':','b'] = true := by decide
+
+/-! ### `cdata_section_elements`, token level over trees -/
+
+/-- "The parent is a CDATA-section element": an element parent whose name is listed (a text node
+    without an element parent — detached, or directly under a document — never is). -/
+theorem C14_cdata_element_iff (pr : TokenParams) (parent : Option Tree) :
+    isCdataElement pr parent = true ↔
+      ∃ par name, parent = some par ∧ par.value = .element name ∧ name ∈ pr.cdataSectionElements :=
+  isCdataElement_iff pr parent
+
+/-- Every text token of `Xot::tokens` (any tree, start node, parameter set) belongs to a text node
+    with the event's value; for a text node under a listed element the token is
+    `serialize_cdata text` and the CDATA / character-reference section reader decodes it to the
+    node's text (`C14_cdata`); for every other text node it is `serialize_text` (with or without
+    `unescaped_gt`) and `parse_text token = text`. -/
+theorem C14_cdata_token (env : Env) (pr : TokenParams) (t : Tree) (start : Path)
+    (ks : List (Path × Output × OutputToken)) (h : tokens env pr t start = .ok ks)
+    (p : Path) (c : Str) (tok : OutputToken) (hk : (p, Output.text c, tok) ∈ ks) :
+    (∃ node, t.at? p = some node ∧ node.value = .text c) ∧ tok.space = false ∧
+    (if isCdataElement pr (t.parentAt? p) then
+       tok.text = serializeCdata c ∧ cdataSectionsContent tok.text = some c
+     else tok.text = serializeText pr.unescapedGt c ∧ parseText tok.text = .ok c) :=
+  cdata_token env pr t start ks h p c tok hk
+
+/-- Non-vacuity: `<a>]]></a><b>]]></b>` with `a` (name 2) listed and `unescaped_gt`: one token of
+    each kind. -/
+example :
+    (tokens {} ⟨[2], true⟩ (.node .document [.node (.element 5)
+        [.node (.element 2) [.node (.text [']',']','>']) []], .node (.element 3) [.node (.text [']',']','>']) []]]]) []
+      ).okValue?.map (fun l => (l.filter (fun k => k.2.1 == Output.text [']',']','>'])).map
+        (fun k => (k.1, String.ofList k.2.2.text)))
+    = some [([0, 0, 0], "<![CDATA[]]]]><![CDATA[>]]>"), ([0, 1, 0], "]]&gt;")] := by decide
 
 end XotModel.Props
